@@ -110,17 +110,23 @@ theorem wired_generated (P : Plane) :
     rw [getD_map_cast _ _ ht, he]
 
 theorem iRight_generated_eq (d : ℚ) (s : Nat) : KernelsCbcaGlue.iRight d (s : Int) = ((Cbca.iRight s d : Nat) : Int) := by
-  unfold KernelsCbcaGlue.iRight Cbca.iRight rtrunc rfloor
-  simp only [div_one, mul_one, Int.cast_natCast]
-  have h0 : (0 : ℚ) ≤ (d - (d.floor : ℚ)) * (s : ℚ) := by
-    apply mul_nonneg
-    · have := Int.floor_le d
-      rw [floor_eq]; linarith
-    · exact Nat.cast_nonneg s
-  rw [if_neg (not_lt.mpr h0)]
-  have : 0 ≤ ((d - (d.floor : ℚ)) * (s : ℚ)).floor := by
-    rw [floor_eq, floor_eq]; exact Int.floor_nonneg.mpr (by rw [floor_eq] at h0; exact h0)
-  omega
+  -- whatever way the source writes the product, it is `trunc` of (fractional part of d) * subpix
+  have hE : ∀ e : ℚ, e = (d - (d.floor : ℚ)) * (s : ℚ) → rtrunc e = ((Cbca.iRight s d : Nat) : Int) := by
+    intro e he
+    subst he
+    unfold Cbca.iRight rtrunc
+    have h0 : (0 : ℚ) ≤ (d - (d.floor : ℚ)) * (s : ℚ) := by
+      apply mul_nonneg
+      · have := Int.floor_le d
+        rw [floor_eq]; linarith
+      · exact Nat.cast_nonneg s
+    rw [if_neg (not_lt.mpr h0)]
+    have : 0 ≤ ((d - (d.floor : ℚ)) * (s : ℚ)).floor := by
+      rw [floor_eq, floor_eq]; exact Int.floor_nonneg.mpr (by rw [floor_eq] at h0; exact h0)
+    omega
+  unfold KernelsCbcaGlue.iRight
+  apply hE
+  simp only [rfloor, div_one, mul_one, Int.cast_natCast] <;> try ring
 
 theorem aggInit_generated_eq (v : Val) :
     KernelsCbcaGlue.aggInit v = (match v with | .nan => Val.nan | .num _ => Val.num 0) := by
